@@ -917,3 +917,10 @@ def _emit_scaled(case, out):
 def emit_case(case, out):
     if "exc" in out: return "false"
     return _emit_bv(case, out) if case["kind"] == "bv" else _emit_scaled(case, out)
+
+# ------------------------------------------------------------------ kernel expressions regenerated from the source
+def translate(repo, gen_dir):
+    """regenerate Gen/C15_Kernel.v (standardisation, un-scaling rules, reductions, zero-scale rule, operand contributions,
+    numpy call tables of the taxa routines, DenseScaledMatrix kernels) from the current source; fail closed"""
+    from translate import c15_kernel
+    return [c15_kernel.translate(repo, gen_dir)]
